@@ -285,3 +285,73 @@ def run_cases(cases, lane="rel", cwd=None, env=None, jobs=None, per_case_timeout
         for r in ex.map(lambda s: run_shard(vh, s, cwd=cwd, env=env, per_case_timeout=per_case_timeout, bad_ops=bad_ops), shards):
             out.update(r)
     return out
+
+
+def cold_race(cases, trials=40, threads=8, lane="rel", cwd=None, env=None, jobs=8):
+    """Concurrent FIRST use: every trial is a fresh process in which `threads` threads, released together, each execute
+    all `cases` once.  Returns a list of trials, each {thread: {case id: (outcome, [fields])}}.  What a lazily built
+    table, a 'read once' cache or a first-call initialiser does under contention shows here and nowhere else."""
+    vh = build.harness(lane)
+    d = scratch("cold-")
+    cp = os.path.join(d, "cases")
+    with open(cp, "w") as f:
+        for cs in cases:
+            f.write(cs.line() + "\n")
+    e = dict(os.environ)
+    if env:
+        e.update(env)
+
+    def one(i):
+        op = os.path.join(d, "out%d" % i)
+        try:
+            subprocess.run([vh, "coldrace", cp, op, str(threads)], stdout=subprocess.DEVNULL, stderr=subprocess.DEVNULL, timeout=120, cwd=cwd or d, env=e)
+        except subprocess.TimeoutExpired:
+            return None
+        res = {}
+        try:
+            for ln in open(op):
+                p = ln.rstrip("\n").split("\t")
+                if len(p) < 3:
+                    continue
+                res.setdefault(p[0], {})[p[1]] = (p[2], [bytes.fromhex(x) if x != "-" else b"" for x in p[3:]])
+        except OSError:
+            return None
+        return res
+    try:
+        with ThreadPoolExecutor(max_workers=jobs) as ex:
+            return list(ex.map(one, range(trials)))
+    finally:
+        shutil.rmtree(d, ignore_errors=True)
+
+
+def cold_race_check(c, prop, cases, trials=40, threads=8, env=None, cwd=None, normalise=None, skip_fields=()):
+    """monitor built on cold_race: what each thread of each fresh process gets must equal what a single-threaded run
+    gets for the same case (normalise(op, outcome, fields) -> comparable value; default: outcome and all fields)"""
+    c.need("cold concurrent first use")
+    ref = run_cases(cases, cwd=cwd, env=env)
+    norm = normalise or (lambda op, outcome, fields: (outcome, tuple(f for i, f in enumerate(fields) if i not in skip_fields)))
+    want = {}
+    for cs in cases:
+        o = ref.get(cs.id)
+        if o is None or o.outcome not in ("ok", "err"):
+            continue
+        want[cs.id] = norm(cs.op, o.outcome, list(o.fields) if o.outcome == "ok" else [o.err.encode("utf-8", "replace")])
+    res = cold_race([cs for cs in cases if cs.id in want], trials=trials, threads=threads, env=env, cwd=cwd)
+    ops = {cs.id: cs.op for cs in cases}
+    for ti, tr in enumerate(res):
+        if tr is None:
+            c.inconc("cold-race process did not finish")
+            continue
+        for th, r in tr.items():
+            for cid, w in want.items():
+                c.ev()
+                g = r.get(cid)
+                if g is None:
+                    c.inconc("cold-race result missing")
+                    continue
+                c.seen("cold concurrent first use")
+                got = norm(ops[cid], g[0], g[1])
+                if got != w:
+                    c.violation("%s:cold-concurrent-first-use:%s" % (prop, ops[cid]), "in a fresh process with %d threads starting at once, thread %s got a result for %s that differs from the single-threaded one: %r vs %r" % (threads, th, ops[cid], repr(got)[:200], repr(w)[:200]),
+                                {"op": ops[cid], "trial": ti, "thread": th})
+        c.cls("cold-race", ti % 4)
